@@ -35,6 +35,30 @@ cleanup() {
 }
 trap cleanup EXIT
 
+# What the code under test prints itself (a trace switched on by a tag or a variable) must not fill the disk or
+# slow the run through a pipe: output goes to a file opened for appending, and a side loop keeps the first 16 MB
+# in <file>.head and empties the file whenever it passes 64 MB (the verdict lines at the end survive).
+watch_size() { # $1 = file
+  ( while sleep 2; do
+      sz=$(stat -c %s "$1" 2>/dev/null || echo 0)
+      if [ "$sz" -gt 64000000 ]; then
+        [ -f "$1.head" ] || head -c 16000000 "$1" > "$1.head"
+        : > "$1"
+      fi
+    done ) >/dev/null 2>&1 &
+  WATCHER=$!
+}
+run_capped() { # $1 = log file, rest = command; stdout and stderr of the command are appended to the file
+  local log="$1"; shift
+  : > "$log"
+  watch_size "$log"
+  local w=$WATCHER
+  "$@" >> "$log" 2>&1
+  local r=$?
+  kill "$w" 2>/dev/null; wait "$w" 2>/dev/null
+  return $r
+}
+
 build() { # $1 = output name, rest = extra go build flags
   local out="$1"; shift
   (cd "$ROOT/harness" && go build "${MODFLAG[@]}" "$@" -o "$out" ./cmd/mon) 2>&1
@@ -70,8 +94,13 @@ export VERIF_MON="$MON"
 
 # generous wall-clock watchdog; its firing is inconclusive, never a violation
 WD=1800; [ "$TIER" = "thorough" ] && WD=10800
-timeout -s QUIT -k 30 "$WD" "$MON" "$PROP"
+ERRF="$(mktemp /tmp/veriferr.XXXXXX)"
+watch_size "$ERRF"
+timeout -s QUIT -k 30 "$WD" "$MON" "$PROP" 2>> "$ERRF"
 rc=$?
+kill "$WATCHER" 2>/dev/null; wait "$WATCHER" 2>/dev/null
+{ [ -f "$ERRF.head" ] && cat "$ERRF.head"; tail -c 4000000 "$ERRF"; } >&2
+rm -f "$ERRF" "$ERRF.head"
 if [ $rc -eq 124 ] || [ $rc -eq 137 ] || [ $rc -eq 131 ]; then
   echo "INCONCLUSIVE property=$PROP reason=watchdog fired after ${WD}s (rc=$rc)"
   exit 2
@@ -137,12 +166,12 @@ if [ $plat -eq 1 ] && [ $rc -eq 0 ] && [ "${VERIF_NO_PLATFORM:-0}" != "1" ]; the
   PDIR="$(mktemp -d /tmp/verif386.XXXXXX)"
   if (cd "$ROOT/harness" && GOARCH=386 go build "${MODFLAG[@]}" -o "$PDIR/mon386" ./cmd/mon) >/dev/null 2>&1; then
     VERIF_TIER=quick VERIF_OUT="$PDIR/out" VERIF_PLATFORM_PASS=386 VERIF_MON="$PDIR/mon386" VERIF_MON_FAST="$PDIR/mon386" \
-      timeout -s KILL 1800 "$PDIR/mon386" "$PROP" > "$PDIR/log" 2>&1
+      run_capped "$PDIR/log" timeout -s KILL 1800 "$PDIR/mon386" "$PROP"
     prc=$?
-    pline="$(grep -E '^(HELD|VIOLATION|INCONCLUSIVE)' "$PDIR/log" | head -1)"
+    pline="$(grep -aE '^(HELD|VIOLATION|INCONCLUSIVE)' "$PDIR/log" | head -1)"
     echo "platform 386: rc=$prc $pline" | cut -c1-220
     if [ $prc -eq 1 ]; then
-      grep -E '^witness' "$PDIR/log" | head -3 | cut -c1-600
+      grep -aE '^witness' "$PDIR/log" | head -3 | cut -c1-600
       for f in "$PDIR"/out/replays/*.json; do [ -f "$f" ] && cp "$f" "$OUTDIR/replays/386-$(basename "$f")"; done
       first="$(ls "$OUTDIR"/replays/386-"$PROP"-*.json 2>/dev/null | head -1)"
       echo "VIOLATION property=$PROP replay=${first:-$OUTDIR/replays}"
@@ -181,18 +210,19 @@ fi
 # ---- generic extra pass: the same monitor built differently runs this property's quick-size workload.
 #   extra_pass <label> <evidence key> <how> <GOARCH or ""> <extra go build flags...>
 # Its verdict counts: a violation there is a violation (its witnesses are copied to replays/<label>-...).
+PASS_ENV=(VERIF_PASS_ENV=none)
 extra_pass() {
   local label="$1" key="$2" how="$3" arch="$4"; shift 4
   local pdir; pdir="$(mktemp -d /tmp/verifpass.XXXXXX)"
   if (cd "$ROOT/harness" && GOARCH="${arch:-$(go env GOARCH)}" go build "${MODFLAG[@]}" "$@" -o "$pdir/mon" ./cmd/mon) >/dev/null 2>&1; then
     VERIF_TIER=quick VERIF_OUT="$pdir/out" VERIF_PLATFORM_PASS="$label" VERIF_MON="$pdir/mon" VERIF_MON_FAST="$pdir/mon" \
-      GORACE="halt_on_error=0 log_path=$pdir/race" timeout -s KILL 3600 "$pdir/mon" "$PROP" > "$pdir/log" 2>&1
+      GORACE="halt_on_error=0 log_path=$pdir/race" run_capped "$pdir/log" env "${PASS_ENV[@]}" timeout -s KILL 3600 "$pdir/mon" "$PROP"
     local prc=$?
     local races=0
     if ls "$pdir"/race.* >/dev/null 2>&1; then
       races=$(cat "$pdir"/race.* | awk 'BEGIN{RS="=================="} /WARNING: DATA RACE/ && /go\.lstv\.dev\/util\// {n++} END{print n+0}')
     fi
-    echo "$label pass: rc=$prc races_in_util=$races $(grep -E '^(HELD|VIOLATION|INCONCLUSIVE)' "$pdir/log" | head -1)" | cut -c1-230
+    echo "$label pass: rc=$prc races_in_util=$races $(grep -aE '^(HELD|VIOLATION|INCONCLUSIVE)' "$pdir/log" | head -1)" | cut -c1-230
     if [ "$races" -gt 0 ]; then
       local rr="$OUTDIR/replays/$label-$PROP-race-$(date +%s).txt"
       cat "$pdir"/race.* | head -120 > "$rr"
@@ -201,7 +231,7 @@ extra_pass() {
       rc=1
     fi
     if [ $prc -eq 1 ]; then
-      grep -E '^witness' "$pdir/log" | head -3 | cut -c1-600
+      grep -aE '^witness' "$pdir/log" | head -3 | cut -c1-600
       for f in "$pdir"/out/replays/*.json; do [ -f "$f" ] && cp "$f" "$OUTDIR/replays/$label-$(basename "$f")"; done
       local first; first="$(ls "$OUTDIR"/replays/"$label"-"$PROP"-*.json 2>/dev/null | head -1)"
       echo "VIOLATION property=$PROP replay=${first:-$OUTDIR/replays}"
@@ -240,6 +270,37 @@ if [ $rc -eq 0 ] && [ "${VERIF_NO_TAGS:-0}" != "1" ]; then
     extra_pass "tag-$t" "build_tag_$t" "the same monitor built with -tags $t (a build tag named in the repository's own build constraints), quick-size workload" "" -tags "$t"
     [ $rc -ne 0 ] && break
   done
+fi
+
+# ---- environment pass (every tier): environment variables that the repository's own non-test sources read
+# by name (os.Getenv / os.LookupEnv with a literal) switch code paths at start-up or per call; the property must hold for a
+# process started with them set too. The names come from the tree under test (literals in the sources, and the
+# look-ups a probe run of every entry point actually makes); the sources never touch the environment, no cost.
+if [ $rc -eq 0 ] && [ "${VERIF_NO_ENV_PASS:-0}" != "1" ]; then
+  envnames="$(grep -rhoE --include='*.go' --exclude='*_test.go' '(Getenv|LookupEnv)\("[A-Za-z_][A-Za-z0-9_]*"\)' "$REPO" 2>/dev/null | sed -E 's/.*\("([^"]*)"\)/\1/' | sort -u | head -8)"
+  # names that are not literals at the call (constants, tables): observed at run time. A test binary of the monitor
+  # package calls every entry point once; Go's own test log (-test.testlogfile) lists each variable looked up.
+  if grep -rqE --include='*.go' --exclude='*_test.go' '(Getenv|LookupEnv|Environ)\(' "$REPO" 2>/dev/null; then
+    EDIR="$(mktemp -d /tmp/verifenv.XXXXXX)"
+    if (cd "$ROOT/harness" && go test -c "${MODFLAG[@]}" -o "$EDIR/probe.test" ./cmd/mon) >/dev/null 2>&1; then
+      (cd "$EDIR" && timeout -s KILL 300 ./probe.test -test.run='^TestEnvProbe$' -test.testlogfile="$EDIR/testlog" >/dev/null 2>&1)
+      seen="$(grep -E '^getenv ' "$EDIR/testlog" 2>/dev/null | cut -d' ' -f2 | grep -E '^[A-Za-z_][A-Za-z0-9_]*$' | grep -vE '^(GO|LC_|LANG|TZ$|ZONEINFO|HOME$|TMPDIR$|PATH$|USER$|PWD$|XDG_|SSL_|VERIF_|NO_COLOR$|TERM$)' | sort -u)"
+      envnames="$(printf '%s\n%s\n' "$envnames" "$seen" | grep -v '^$' | sort -u | head -8)"
+    else
+      echo "environment probe: build failed (names taken from the sources only)"
+    fi
+    rm -rf "$EDIR"
+  fi
+  if [ -n "$envnames" ]; then
+    for val in 1 true; do
+      PASS_ENV=()
+      for n in $envnames; do PASS_ENV+=("$n=$val"); done
+      label="env-$val"
+      extra_pass "$label" "environment_pass_$val" "the same monitor, quick-size workload, started with the environment variables the repository's sources read by name ($(echo $envnames | tr '\n' ' ')) each set to '$val'" ""
+      [ $rc -ne 0 ] && break
+    done
+    PASS_ENV=(VERIF_PASS_ENV=none)
+  fi
 fi
 
 # ---- race pass (thorough tier): the whole quick-size workload of this property under the race detector. The
